@@ -407,7 +407,20 @@ def impl_versions(case):
         Haplotypes(f, log=cap0.logger).read()
     base = sum(1 for l, _ in cap0.records if l in ("ERROR", "WARNING"))
     n = sum(1 for l, _ in cap.records if l in ("ERROR", "WARNING"))
-    return {"raised": raised, "errors": sum(1 for l, _ in cap.records if l == "ERROR"), "warnings": sum(1 for l, _ in cap.records if l == "WARNING"), "unsupported_reported": n > base, "loaded": len(h.data or {})}
+    # ... and, since an older supported version draws a note too ("outdated, consider upgrading"), the documented strict form of
+    # the header check (softly=False: "raise instead of warn") must refuse exactly the unsupported ones
+    strict = None
+    if case["version"] is not None:
+        with C.capture_logs() as cap1:
+            hh = Haplotypes(f, log=cap1.logger)
+            try:
+                hh.check_header([f"#\tversion\t{case['version']}"], softly=False)
+                strict = False
+            except Exception as e:  # noqa
+                if not C.deliberate_raise(e):
+                    raise
+                strict = True
+    return {"raised": raised, "errors": sum(1 for l, _ in cap.records if l == "ERROR"), "warnings": sum(1 for l, _ in cap.records if l == "WARNING"), "unsupported_reported": n > base, "strict_refused": strict, "loaded": len(h.data or {})}
 
 
 def oracle_versions(case, obs):
@@ -421,6 +434,10 @@ def oracle_versions(case, obs):
     reported = obs["raised"] is not None or obs["unsupported_reported"]
     if unsupported and not reported:
         return f"version {v} (unsupported major / newer minor) was read without being reported"
+    if unsupported and obs.get("strict_refused") is False:
+        return f"version {v} (unsupported major / newer minor) passes the strict header check (softly=False), which refuses other unsupported versions: it is treated as a supported one"
+    if not unsupported and obs.get("strict_refused"):
+        return f"supported version {v} is refused by the strict header check"
     if not unsupported and obs["raised"] is not None:
         return f"supported version {v} was rejected with {obs['raised']}"
     return None
